@@ -6,10 +6,46 @@ HERE = os.path.dirname(os.path.dirname(os.path.abspath(__file__)))
 
 # id -> (technique, level text, level note, design ref, engine)
 CLAIMED = {
+    "C01": ("proptest-generated planner cases (worlds, marginal starts, blocked goals) vs. pure-world validity oracle",
+            "Generated-input search over 4 planners x 6 space kinds x generated obstacle worlds (30% starts marginally inside an obstacle, 30% goal regions blocked/overlapped), parameters and seeds: every state of every returned path is re-evaluated by the harness's pure world function, and an invalid start must be reported as InvalidStartState. Shows the property on everything generated; cannot show absence.",
+            "Trusted: the harness world functions and flat state encoding; the iteration-budget hook (feature verif) only bounds the loop count.",
+            "5/C01", "oxv"),
+    "C02": ("model-based call histories (proptest) vs. reference model of the current problem; RRT-Connect path assembly re-derived from tree snapshots",
+            "Generated call histories (setup / problem replacement / roadmap construction / repeated solve, two problems) run against the real planner and a reference model of 'current problem'; every Ok(path) must start bit-exactly at the current start and end in the current goal; RRT-Connect paths are re-derived as walks in the two snapshot trees and classified (direct / start-grew / goal-grew).",
+            "Trusted: reference model in harness/src/props/plan.rs (ApiModel), snapshot accessors (read-only hooks).",
+            "5/C02", "oxv"),
+    "C03": ("proptest-generated worlds with walls thinner than the step; validity-query log coverage (oracle A) and dense re-check (oracle B) per path segment",
+            "For every segment of every returned path: (A) the logged, accepted validity queries lying on the segment leave no gap longer than the space's longest-valid-segment length; (B) an independent dense interpolation (L/64) through the pure world finds no invalid stretch >= L. Edge kinds (extension, RRT* rewired / chosen parent, RRT-Connect sides and junction, PRM start connection / milestone link) are classified and counted.",
+            "Trusted: the logging checker wrapper, the on-segment metric test with the tolerances of DESIGN.md section 4. Resolution fractions > 0 only.",
+            "5/C03", "oxv"),
+    "C04": ("proptest-generated bounded spaces (boxes, SO2 intervals of any span, SO3 cones, compounds) vs. independent reference membership",
+            "Every state of every returned path is tested against a reference bounds membership that does not use satisfies_bounds; the statement's precondition (start and goal samples in bounds) is checked per case. One known finding (non-convex bounded regions) is excluded by component-wise signature; convex regions must pass.",
+            "Trusted: reference membership in harness/src/flat.rs, tolerance 1e-9 (SO3 1e-6).",
+            "5/C04", "oxv"),
+    "C05": ("proptest-generated planner cases over steps/radii from 1e-3 to 10 x extent vs. own and reference metric",
+            "Consecutive path states are measured with the space's own distance and with the independent reference distance; both must respect the planner's extension limit (step / max(step, radius) / connection radius).",
+            "Trusted: reference metric, tolerances of DESIGN.md section 4.",
+            "5/C05", "oxv"),
     "C09": ("exhaustive lattice of special states + proptest-generated triples vs. independent reference metric",
             "Generated-input search: every ordered triple over a lattice of failure-prone states (exhaustive in the thorough tier) plus 2e5 (quick) / 5e6 (thorough) random triples across all six kinds, layouts and weights, against the metric axioms, representation invariance, the diameter bound and an independently written reference distance. Exploration, not proof: it shows the axioms hold on everything generated.",
             "Trusted: the reference formulas in harness/src/flat.rs (scaled two-pass norm, atan2-based angular distances), libm, and the stated tolerances (DESIGN.md section 4). RV magnitudes above 1e150 are outside the stated domain.",
             "5/C09", "oxv"),
+    "C10": ("exhaustive lattice of pairs x t + proptest-generated pairs vs. constant-speed law, reversal, canonical form and a reference interpolation",
+            "All ordered pairs over the special-value lattices x 7 values of t, plus 3e5 / 8e6 random (pair, t) cases incl. a dense sweep of the quaternion dot through the 0.9995 LERP/SLERP switch: endpoint laws, d(a,m) = t d and d(m,b) = (1-t) d by the reference metric and the space's own, canonical output, reversal symmetry, differential against an atan2-based reference interpolation, independence from the initial contents of the output state.",
+            "Trusted: reference metric/interpolation (harness/src/gen.rs, flat.rs); ambiguous (antipodal) pairs accept either shortest path.",
+            "5/C10", "oxv"),
+    "C11": ("proptest-generated bound settings x wild states x sampler seeds vs. reference membership, canonical-form and idempotence oracles",
+            "Constructible bound settings of all six kinds (half-bounded / one-ulp / huge boxes, SO2 intervals inside/touching/outside [-pi,pi], cones of radius 0..pi and beyond, negated centres) x states inside / on the boundary +-ulp / far outside / non-canonical / non-unit / zero x seeds: sample => satisfies + reference membership (or the documented unbounded error), enforce => satisfies, canonical, idempotent, identity on satisfying canonical states; every call under catch_unwind.",
+            "Trusted: reference membership; 4-ulp comparison; one known finding (SO3 containment has no tolerance) excluded only for unit states within 2e-6 rad of the cone boundary.",
+            "5/C11", "oxv"),
+    "C12": ("exhaustive lattice of constructor arguments (bound pairs over 18 special values incl. NaN/inf, lengths, radii, angles, quaternion magnitudes) + random fill-in vs. reference well-formedness predicate in both directions",
+            "Every constructor of the five validated spaces and the three canonicalising state constructors over an exhaustive lattice of special arguments (about 1e4 tuples) plus 1e5 / 2e6 random ones: ill-formed => the documented error with the right payload; well-formed and in range => accepted and stored verbatim; every accepted space is then sampled, enforced, checked and asked for its resolution under catch_unwind.",
+            "Trusted: the reference predicate in harness/src/props/c12.rs. Two known findings (width overflow of finite RV bounds; NaN SO3 centre) excluded by exact signature.",
+            "5/C12", "oxv"),
+    "C13": ("proptest-generated compound layouts/weights/bounds; differential against component-by-component recomputation with the real component spaces",
+            "Every StateSpace operation of CompoundStateSpace / SE2StateSpace / SE3StateSpace is recomputed per component with separately built real component spaces and combined by the documented law: distance and resolution to 1e-14 relative, interpolate / enforce_bounds / sample_uniform bit for bit (identically seeded generator, same order), satisfies_bounds as conjunction; SE2State::new against its components.",
+            "Trusted: the component spaces themselves (decided by C09-C12) and the harness's flat slicing of compound states.",
+            "5/C13", "oxv"),
 }
 PENDING = {}
 ALL = ["C%02d" % i for i in range(1, 21)]
